@@ -14,10 +14,13 @@ import (
 	corev1 "k8s.io/api/core/v1"
 	"k8s.io/apimachinery/pkg/api/resource"
 	metav1 "k8s.io/apimachinery/pkg/apis/meta/v1"
+	k8sfeature "k8s.io/apiserver/pkg/util/feature"
 	"k8s.io/client-go/tools/cache"
 
 	"github.com/koordinator-sh/koordinator/apis/extension"
 	schedv1alpha1 "github.com/koordinator-sh/koordinator/apis/thirdparty/scheduler-plugins/pkg/apis/scheduling/v1alpha1"
+	koordfeatures "github.com/koordinator-sh/koordinator/pkg/features"
+	utilfeature "github.com/koordinator-sh/koordinator/pkg/util/feature"
 )
 
 // C19, harness `quota`: "after a restart the quota a running pod is charged to is the one rebuilt from the objects".
@@ -43,6 +46,10 @@ import (
 //
 // Names (model tokens): 0 no label, 1 koordinator-default-quota, 2 koordinator-system-quota, 3.. quotas of the case (created,
 // deleted, re-created, or never created).  Namespace token n = the namespace named like quota n; 90 = a namespace nobody claims.
+//
+// Stream M (every fifth case): feature gate MultiQuotaTree on and every quota of the case labelled with a tree id => the case's
+// quotas live in a GroupQuotaManager of their own, default/system stay in the default manager, pods parked in the default group are
+// moved by OnPodDelete + OnPodAdd (model: migrateAllMT); the theorem's hypotheses are not evaluated there.
 //
 // Strict generator = the decidable hypotheses of the theorem (Model/C19QuotaSpec.lean okStep); VERIF_C19Q_FREE=1 lifts them
 // (manual runs only; shows the races listed in props/C19.json).
@@ -80,6 +87,8 @@ type c19qWorld struct {
 	rvq    int
 	free   bool
 	dead   bool
+	multi  bool // stream M: MultiQuotaTree on, the case's quotas carry a tree id of their own
+	first  map[int]*c19qPod // the object the caching group saw first (QuotaInfo.PodCache never refreshes it)
 }
 
 func c19qName(idx, i int) string {
@@ -138,6 +147,9 @@ func (w *c19qWorld) mkQuota(q *c19qQuota) {
 		o.Labels[extension.LabelQuotaParent] = w.qname(q.parent)
 	}
 	o.Labels[extension.LabelQuotaIsParent] = fmt.Sprint(q.isParent)
+	if w.multi {
+		o.Labels[extension.LabelQuotaTreeID] = fmt.Sprintf("c19t%d", w.idx)
+	}
 	switch {
 	case len(q.nss) > 0:
 		var names []string
@@ -268,7 +280,7 @@ func c19qVal(rl corev1.ResourceList, k int) int64 {
 
 func (w *c19qWorld) snapshot(pl *Plugin) map[int]*c19qObs {
 	res := map[int]*c19qObs{}
-	for name, s := range pl.groupQuotaManager.GetQuotaSummaries(true) {
+	for name, s := range pl.GetQuotaSummaries("", true) {
 		n := w.qid(name)
 		if n < 0 {
 			continue
@@ -397,6 +409,16 @@ func (w *c19qWorld) migrate(c int) {
 	w.call(c, func(pl *Plugin) { pl.migrateDefaultQuotaGroupsPod() })
 	if c == 0 {
 		for _, id := range w.pids() {
+			if p := w.pods[id]; w.loc[id] != w.res(p) {
+				switch {
+				case w.resvd[id]:
+					w.h.Tag("p:migrate-moves-reserved-pod")
+				case p.node && !p.term:
+					w.h.Tag("p:migrate-moves-bound-pod")
+				default:
+					w.h.Tag("p:migrate-moves-pending-pod")
+				}
+			}
 			w.loc[id] = w.res(w.pods[id])
 		}
 	}
@@ -424,8 +446,27 @@ func (w *c19qWorld) parents() []int {
 	return out
 }
 
+// mtBlocked (stream M only): a pod held by the default group whose cached (first) object is stale in NodeName / phase would be
+// re-added from that stale object by the cross-tree migration (OnPodDelete + OnPodAdd) and lose its assigned flag until its next
+// update - reported as a suspected defect, kept out of the strict generator.
+func (w *c19qWorld) mtBlocked() bool {
+	if !w.multi || w.free {
+		return false
+	}
+	for _, id := range w.pids() {
+		p, f := w.pods[id], w.first[id]
+		if w.loc[id] == 1 && f != nil && (f.node != p.node || f.term != p.term) {
+			return true
+		}
+	}
+	return false
+}
+
 func (w *c19qWorld) opQuotaAdd() bool {
 	r := w.r
+	if w.mtBlocked() {
+		return false
+	}
 	var cand []int
 	for n := 3; n <= 8; n++ {
 		if w.quotas[n] == nil {
@@ -444,7 +485,7 @@ func (w *c19qWorld) opQuotaAdd() bool {
 			named = true
 		}
 	}
-	if !named && r.Chance(1, 4) {
+	if !named && r.Chance(1, 3) {
 		q.isParent = true
 		q.max = [2]int64{1 << 40, 1 << 50}
 	} else {
@@ -486,7 +527,7 @@ func (w *c19qWorld) opQuotaUpdate() bool {
 	}
 	q := w.quotas[ids[r.Intn(len(ids))]]
 	old := q.obj
-	switch r.Intn(4) {
+	switch []int{0, 1, 1, 2, 3}[r.Intn(5)] {
 	case 0: // max
 		if !q.isParent {
 			q.max = [2]int64{int64(r.Range(1, 40)) * 500, int64(r.Range(1, 40)) * 500 * 1024}
@@ -504,7 +545,7 @@ func (w *c19qWorld) opQuotaUpdate() bool {
 		q.parent = np
 		w.h.Tag("q:re-parent")
 	case 2: // claim one more namespace
-		if q.isParent {
+		if q.isParent || w.mtBlocked() {
 			return false
 		}
 		fr := w.freeNs()
@@ -605,6 +646,7 @@ func (w *c19qWorld) opPodAdd() bool {
 	w.mkPod(p)
 	w.pods[p.id] = p
 	w.loc[p.id] = w.res(p)
+	w.first[p.id] = p
 	w.h.Tag("p:add")
 	switch {
 	case p.label == 0 && w.res(p) > 2:
@@ -689,6 +731,9 @@ func (w *c19qWorld) opPodUpdate(forceBind int) bool {
 	w.h.Op("quota pupd 0 %s %s", old.toks(), n.toks())
 	w.pods[id] = &n
 	if kind != 4 {
+		if w.res(&n) != w.loc[id] {
+			w.first[id] = &n
+		}
 		w.loc[id] = w.res(&n)
 		if n.node {
 			delete(w.resvd, id)
@@ -950,7 +995,7 @@ func (w *c19qWorld) cut() {
 		return
 	}
 	w.migrate(0)
-	if !w.free {
+	if !w.free && !w.multi {
 		w.h.Op("quota hyp")
 		w.h.Obs("hyp 1")
 	}
@@ -960,7 +1005,7 @@ func (w *c19qWorld) cut() {
 	if w.dead {
 		return
 	}
-	if !w.free && shape != "L" {
+	if !w.free && !w.multi && shape != "L" {
 		w.h.Op("quota hypd")
 		w.h.Obs("hypd 1")
 	}
@@ -1048,7 +1093,16 @@ func TestVerifC19Quota(t *testing.T) {
 			continue
 		}
 		w := &c19qWorld{t: t, h: h, r: r, idx: idx, newPl: newPl, quotas: map[int]*c19qQuota{}, pods: map[int]*c19qPod{},
-			resvd: map[int]bool{}, loc: map[int]int{}, nextP: 1, free: free}
+			resvd: map[int]bool{}, loc: map[int]int{}, first: map[int]*c19qPod{}, nextP: 1, free: free}
+		restore := func() {}
+		if idx%5 == 4 { // stream M
+			w.multi = true
+			restore = utilfeature.SetFeatureGateDuringTest(t, k8sfeature.DefaultMutableFeatureGate, koordfeatures.MultiQuotaTree, true)
+			h.Tag("stream:M-multi-quota-tree")
+			h.Op("quota mode 1")
+		} else {
+			h.Tag("stream:S-single-manager")
+		}
 		w.live = newPl()
 		h.Op("quota dump 0")
 		w.observe(w.live)
@@ -1061,6 +1115,7 @@ func TestVerifC19Quota(t *testing.T) {
 			w.mkPod(p)
 			w.pods[p.id] = p
 			w.loc[p.id] = 1
+			w.first[p.id] = p
 			h.Tag("p:add-quota-missing=>default")
 			w.podAdd(0, p)
 			if !p.node && r.Bool() && !w.dead {
@@ -1074,11 +1129,125 @@ func TestVerifC19Quota(t *testing.T) {
 			}
 		}
 		w.cut()
+		restore()
 		h.End()
 	}
 	h.Close("elasticquota restart histories: 12-40 calls of OnQuotaAdd/Update/Delete (re-parenting, max, namespace annotation incl. empty/null/malformed, own-namespace quotas, " +
 		"DeletedFinalStateUnknown), OnPodAdd/Update/Delete (label present / absent / special names / naming a quota that does not exist (yet), bind, resize, label change, " +
 		"failed pending pod, same-RV resync, tombstones), Reserve/Unreserve, migrateDefaultQuotaGroupsPod on a live plugin; at two cuts a fresh plugin is fed the final objects in " +
 		"shape R (store + OnQuotaAdd any order + ReplaceQuotas, pods with duplicates), H (handlers, every pod after its quota, duplicates) or L (pods before their quotas, once) " +
-		"followed by the migration; every third case starts with a pod naming a quota created later; non-trivial = at least 2 quotas and 2 pods alive at the last cut")
+		"followed by the migration; every third case starts with a pod naming a quota created later; every fifth case (stream M) runs with MultiQuotaTree on and the quotas in a " +
+		"tree of their own (migration = OnPodDelete in the default manager + OnPodAdd in the tree's manager; outside the theorem, model + oracle only); non-trivial = at least 2 quotas and 2 pods alive at the last cut")
+}
+
+// TestVerifC19QuotaExhaustive (thorough tier): small scope, ALL delivery orders.  World: quota 3 (named by label), quota 4 (claims the
+// namespace 90 by annotation), pod 1 labelled 3, pod 2 unlabelled in namespace 90, pod 3 labelled with a quota that never exists;
+// the 4 bound/pending variants of pods 1 and 2 x the 120 orders of the 5 add events (handlers only) x {no duplicate, pod 1 twice,
+// pod 2 twice} followed by the migration.  Oracle: every order gives the ledger of the canonical order (quotas first).
+func TestVerifC19QuotaExhaustive(t *testing.T) {
+	h := vOpen("C19")
+	if h == nil {
+		t.Skip("VERIF_OUT not set")
+	}
+	suit := newPluginTestSuit(t, nil)
+	setLoglevel("0")
+	newPl := func() *Plugin {
+		p, err := suit.proxyNew(context.TODO(), suit.elasticQuotaArgs, suit.Handle)
+		if err != nil {
+			t.Fatalf("plugin: %v", err)
+		}
+		return p.(*Plugin)
+	}
+	var perms [][]int
+	var gen func(cur []int, used int)
+	gen = func(cur []int, used int) {
+		if len(cur) == 5 {
+			perms = append(perms, append([]int{}, cur...))
+			return
+		}
+		for i := 0; i < 5; i++ {
+			if used&(1<<i) == 0 {
+				gen(append(cur, i), used|1<<i)
+			}
+		}
+	}
+	gen(nil, 0)
+	idx := 0
+	for variant := 0; variant < 4; variant++ {
+		for _, perm := range perms {
+			for dup := 0; dup < 3; dup++ {
+				r := h.Begin(idx)
+				idx++
+				if r == nil {
+					continue
+				}
+				w := &c19qWorld{t: t, h: h, r: r, idx: idx, newPl: newPl, quotas: map[int]*c19qQuota{}, pods: map[int]*c19qPod{},
+					resvd: map[int]bool{}, loc: map[int]int{}, first: map[int]*c19qPod{}, free: true}
+				qa := &c19qQuota{name: 3, max: [2]int64{8000, 8000 * 1024}}
+				qb := &c19qQuota{name: 4, max: [2]int64{8000, 8000 * 1024}, nss: []int{90}}
+				w.mkQuota(qa)
+				w.mkQuota(qb)
+				w.quotas[3], w.quotas[4] = qa, qb
+				ps := []*c19qPod{
+					{id: 1, label: 3, ns: 5, req: 1000, rv: 1, node: variant&1 != 0},
+					{id: 2, label: 0, ns: 90, req: 2000, rv: 1, node: variant&2 != 0},
+					{id: 3, label: 9, ns: 5, req: 500, rv: 1, node: true},
+				}
+				for _, p := range ps {
+					w.mkPod(p)
+					w.pods[p.id] = p
+				}
+				h.Tag(fmt.Sprintf("exh:variant-%d-dup-%d", variant, dup))
+				// canonical order on cache 0
+				w.live = newPl()
+				w.quotaPut(0, qa, 1, nil)
+				w.quotaPut(0, qb, 1, nil)
+				for _, p := range ps {
+					w.podAdd(0, p)
+				}
+				w.migrate(0)
+				// the order under test on cache 1
+				w.fresh = newPl()
+				h.Op("quota fresh")
+				deliver := func(e int) {
+					switch e {
+					case 0:
+						w.quotaPut(1, qa, 1, nil)
+					case 1:
+						w.quotaPut(1, qb, 1, nil)
+					default:
+						w.podAdd(1, ps[e-2])
+					}
+				}
+				for _, e := range perm {
+					deliver(e)
+				}
+				if dup > 0 {
+					deliver(1 + dup) // pod 1 / pod 2 once more, after everything else and before the migration
+				}
+				w.migrate(1)
+				if !w.dead {
+					a, b := w.snapshot(w.live), w.snapshot(w.fresh)
+					for _, n := range []int{1, 2, 3, 4} {
+						if a[n] == nil || b[n] == nil {
+							h.Fail("C19:quota-order-dependent:quota-set", "order %v dup %d: quota %d known canonical=%v this order=%v", perm, dup, n, a[n] != nil, b[n] != nil)
+							break
+						}
+						if fmt.Sprint(a[n].pods) != fmt.Sprint(b[n].pods) {
+							h.Fail("C19:quota-order-dependent:charge", "order %v dup %d variant %d: quota %d pods(assigned) canonical %v, this order %v", perm, dup, variant, n, a[n].pods, b[n].pods)
+							break
+						}
+						if a[n].fig != b[n].fig {
+							h.Fail("C19:quota-order-dependent:figures", "order %v dup %d variant %d: quota %d figures canonical %v, this order %v", perm, dup, variant, n, a[n].fig, b[n].fig)
+							break
+						}
+					}
+				}
+				h.Nontrivial()
+				h.End()
+			}
+		}
+	}
+	h.Close("exhaustive small scope: 2 quotas (label / namespace annotation), 3 pods (labelled, unlabelled-by-namespace, labelled with a missing quota), 4 bound/pending variants x " +
+		"all 120 orders of the 5 add events x {no duplicate, pod 1 again, pod 2 again} + migration, each compared with the canonical quotas-first order; every case is distinct and non-trivial")
 }
